@@ -409,8 +409,10 @@ fn main() {
                         buf.push(b'\n');
                     }
                 }
-                "end" => {
-                    if let Some(buf) = seg.take() {
+                "end" | "endnolf" => {
+                    if let Some(mut buf) = seg.take() {
+                        // "endnolf": the file ends without a line feed (the last line is a line all the same)
+                        if toks[0] == "endnolf" && buf.last() == Some(&b'\n') { buf.pop(); }
                         seg_no += 1;
                         sync_clock(&table, &mut last_sync);
                         let path = tmpdir.join(format!("sqh-{}-{}.txt", std::process::id(), seg_no));
